@@ -59,6 +59,7 @@ type mCtx struct {
 	known    map[string]*mSig  // translated functions by Go name
 	consts   map[string]string // package-level field constants (&name) -> Coq term
 	exps     map[string]string // package-level byte arrays (name[:]) -> Coq term of type N
+	u64s     map[string]string // package-level uint64 variables -> Coq term of type N
 	limbs    map[string]string // package-level limb arrays -> Coq term (a field-valued section variable)
 	paramOps bool              // the parameter object `params` is available (section variables)
 	prefix   string
@@ -82,6 +83,10 @@ type mslp struct {
 	hasRet   bool
 	retTuple string // tail call
 	params   []string
+	u64Par   map[string]bool   // uint64 parameters (exponents, loop bounds)
+	ienv     map[string]string // integer locals of a loop body -> Coq term of type N
+	outer    *mslp             // enclosing function when translating a loop body
+	loopVar  string
 }
 
 func (s *mslp) errf(n ast.Node, format string, a ...any) error {
@@ -109,6 +114,9 @@ func (s *mslp) loc(e ast.Expr) (string, error) {
 		}
 		if s.locals[x.Name] {
 			return "l:" + x.Name, nil // method call on an addressable local: n1.Neg(in)
+		}
+		if t, ok := s.c.consts[x.Name]; ok && false {
+			return "c:" + t, nil
 		}
 		return "", s.errf(e, "not a field pointer")
 	case *ast.UnaryExpr:
@@ -144,6 +152,9 @@ func (s *mslp) read(n ast.Node, loc string) (string, error) {
 	}
 	if v, ok := s.env[loc]; ok {
 		return v, nil
+	}
+	if s.outer != nil {
+		return s.outer.read(n, loc) // a loop body sees the enclosing function's current values
 	}
 	if strings.HasPrefix(loc, "l:") {
 		return "", s.errf(n, "local %s is read before it is written", loc[2:])
@@ -305,6 +316,27 @@ func (s *mslp) boolExpr(e ast.Expr) (string, error) {
 func (s *mslp) expArg(e ast.Expr) (string, error) {
 	if id, ok := e.(*ast.Ident); ok && s.expPar[id.Name] {
 		return coqIdent(id.Name), nil
+	}
+	if id, ok := e.(*ast.Ident); ok {
+		if s.u64Par[id.Name] || (s.outer != nil && s.outer.u64Par[id.Name]) {
+			return coqIdent(id.Name), nil
+		}
+		if t, ok := s.c.u64s[id.Name]; ok {
+			return t, nil
+		}
+	}
+	// binary.LittleEndian.AppendUint64(nil, X): the exponent is the uint64 value X itself
+	if c, ok := e.(*ast.CallExpr); ok && isSel(c.Fun, "binary", "LittleEndian", "AppendUint64") && len(c.Args) == 2 {
+		if id, ok := c.Args[0].(*ast.Ident); ok && id.Name == "nil" {
+			if x, ok := c.Args[1].(*ast.Ident); ok {
+				if v, ok := s.ienv[x.Name]; ok {
+					return v, nil
+				}
+				if s.u64Par[x.Name] || (s.outer != nil && s.outer.u64Par[x.Name]) {
+					return coqIdent(x.Name), nil
+				}
+			}
+		}
 	}
 	if se, ok := e.(*ast.SliceExpr); ok && se.Low == nil && se.High == nil {
 		if id, ok := se.X.(*ast.Ident); ok {
@@ -625,6 +657,20 @@ func (s *mslp) stmt(st ast.Stmt) error {
 			}
 			return s.call(c, "", true)
 		}
+		if s.outer != nil {
+			// integer locals of a loop body: t := i - 2 | t = 1 << t
+			if v, ok := s.intExpr(x.Rhs[0]); ok {
+				if x.Tok == token.DEFINE {
+					if _, dup := s.ienv[lhs.Name]; dup {
+						return s.errf(st, "shadowing")
+					}
+				} else if _, known := s.ienv[lhs.Name]; !known {
+					return s.errf(st, "assignment to an unknown integer")
+				}
+				s.ienv[lhs.Name] = v
+				return nil
+			}
+		}
 		if x.Tok != token.DEFINE {
 			return s.errf(st, "re-assignment")
 		}
@@ -644,6 +690,8 @@ func (s *mslp) stmt(st ast.Stmt) error {
 		}
 		s.lets = append(s.lets, fmt.Sprintf("let %s := %s in", s.freshBool(lhs.Name), b))
 		return nil
+	case *ast.ForStmt:
+		return s.forLoop(x)
 	case *ast.ReturnStmt:
 		if len(x.Results) == 0 {
 			return nil
@@ -667,10 +715,151 @@ func (s *mslp) stmt(st ast.Stmt) error {
 	return s.errf(st, "unsupported statement")
 }
 
+// intExpr renders the integer expressions of a loop body: i | literal | known integer | a - b | 1 << a
+func (s *mslp) intExpr(e ast.Expr) (string, bool) {
+	switch x := e.(type) {
+	case *ast.ParenExpr:
+		return s.intExpr(x.X)
+	case *ast.BasicLit:
+		if x.Kind == token.INT {
+			if v, err := strconv.ParseUint(x.Value, 0, 64); err == nil {
+				return strconv.FormatUint(v, 10) + "%N", true
+			}
+		}
+	case *ast.Ident:
+		if x.Name == s.loopVar && s.loopVar != "" {
+			return coqIdent(x.Name), true
+		}
+		if v, ok := s.ienv[x.Name]; ok {
+			return v, true
+		}
+	case *ast.BinaryExpr:
+		l, ok1 := s.intExpr(x.X)
+		r, ok2 := s.intExpr(x.Y)
+		if ok1 && ok2 {
+			switch x.Op {
+			case token.SUB:
+				return "(N.sub " + l + " " + r + ")", true
+			case token.SHL:
+				return "(N.shiftl " + l + " " + r + ")", true
+			}
+		}
+	}
+	return "", false
+}
+
+// forLoop: for i := HI; i >= LO; i-- { straight-line body over the function's locals }
+// rendered as  let '(state') := for_down HI LO (fun i '(state) => body) (state) in
+func (s *mslp) forLoop(x *ast.ForStmt) error {
+	if s.outer != nil {
+		return s.errf(x, "nested loop")
+	}
+	init, ok := x.Init.(*ast.AssignStmt)
+	if !ok || init.Tok != token.DEFINE || len(init.Lhs) != 1 || len(init.Rhs) != 1 {
+		return s.errf(x, "unsupported loop initialisation")
+	}
+	iv, ok1 := init.Lhs[0].(*ast.Ident)
+	hi, ok2 := init.Rhs[0].(*ast.Ident)
+	if !ok1 || !ok2 || !s.u64Par[hi.Name] {
+		return s.errf(x, "loop must start at a uint64 parameter")
+	}
+	cond, ok := x.Cond.(*ast.BinaryExpr)
+	if !ok || cond.Op != token.GEQ || src(s.c.fset, cond.X) != iv.Name {
+		return s.errf(x, "unsupported loop condition")
+	}
+	lo, ok := cond.Y.(*ast.BasicLit)
+	if !ok || lo.Kind != token.INT || lo.Value == "0" {
+		return s.errf(x, "loop lower bound must be a positive literal (i >= 0 never ends for an unsigned i)")
+	}
+	post, ok := x.Post.(*ast.IncDecStmt)
+	if !ok || post.Tok != token.DEC || src(s.c.fset, post.X) != iv.Name {
+		return s.errf(x, "unsupported loop step")
+	}
+	child := func() *mslp {
+		cnt := map[string]int{}
+		for k, v := range s.counter {
+			cnt[k] = v
+		}
+		return &mslp{c: s.c, fname: s.fname, isPtr: map[string]bool{}, expPar: s.expPar, parObj: s.parObj, locals: s.locals,
+			env: map[string]string{}, benv: map[string]string{}, counter: cnt, written: map[string]bool{}, readIn: map[string]bool{},
+			u64Par: map[string]bool{}, ienv: map[string]string{}, outer: s, loopVar: iv.Name}
+	}
+	// pass 1: which locals does the body write?
+	c1 := child()
+	for _, st := range x.Body.List {
+		if err := c1.stmt(st); err != nil {
+			return err
+		}
+	}
+	var state []string
+	for loc := range c1.env {
+		if strings.HasPrefix(loc, "l:") {
+			state = append(state, loc[2:])
+		} else {
+			return s.errf(x, "loop body writes through %s", loc)
+		}
+	}
+	sort.Strings(state)
+	if len(state) == 0 {
+		return s.errf(x, "loop without effect")
+	}
+	// pass 2 with the state variables bound by the loop function
+	c2 := child()
+	var ins, cur []string
+	for _, n := range state {
+		v, ok := s.env["l:"+n]
+		if !ok {
+			return s.errf(x, "loop state %s has no value before the loop", n)
+		}
+		cur = append(cur, v)
+		in := coqIdent(n) + "_i"
+		c2.env["l:"+n] = in
+		ins = append(ins, in)
+	}
+	for _, st := range x.Body.List {
+		if err := c2.stmt(st); err != nil {
+			return err
+		}
+	}
+	var outs, after []string
+	for _, n := range state {
+		outs = append(outs, c2.env["l:"+n])
+	}
+	s.counter = c2.counter
+	for _, n := range state {
+		nm, err := s.fresh("l:" + n)
+		if err != nil {
+			return err
+		}
+		after = append(after, nm)
+	}
+	tup := func(xs []string) string {
+		if len(xs) == 1 {
+			return xs[0]
+		}
+		return "(" + strings.Join(xs, ", ") + ")"
+	}
+	pat := func(xs []string) string {
+		if len(xs) == 1 {
+			return xs[0]
+		}
+		return "'(" + strings.Join(xs, ", ") + ")"
+	}
+	var b strings.Builder
+	fmt.Fprintf(&b, "let %s :=\n      for_down %s %s%%N (fun %s st => let %s := st in\n", pat(after), coqIdent(hi.Name), lo.Value, coqIdent(iv.Name), pat(ins))
+	for _, l := range c2.lets {
+		fmt.Fprintf(&b, "        %s\n", l)
+	}
+	fmt.Fprintf(&b, "        %s) %s in", tup(outs), tup(cur))
+	s.lets = append(s.lets, b.String())
+	return nil
+}
+
 // translate a function declaration; registers its signature under goName.
 func (c *mCtx) translate(fd *ast.FuncDecl, goName, coqName string) (string, error) {
 	s := &mslp{c: c, fname: goName, isPtr: map[string]bool{}, expPar: map[string]bool{}, parObj: map[string]bool{}, locals: map[string]bool{},
-		env: map[string]string{}, benv: map[string]string{}, counter: map[string]int{}, written: map[string]bool{}, readIn: map[string]bool{}}
+		env: map[string]string{}, benv: map[string]string{}, counter: map[string]int{}, written: map[string]bool{}, readIn: map[string]bool{},
+		u64Par: map[string]bool{}, ienv: map[string]string{}}
 	pos := map[string]int{}
 	i := 0
 	for _, p := range fd.Type.Params.List {
@@ -682,6 +871,8 @@ func (c *mCtx) translate(fd *ast.FuncDecl, goName, coqName string) (string, erro
 				s.ptrs = append(s.ptrs, n.Name)
 			case "[]uint8":
 				s.expPar[n.Name] = true
+			case "uint64":
+				s.u64Par[n.Name] = true
 			case "P":
 				s.parObj[n.Name] = true
 			default:
@@ -711,10 +902,10 @@ func (c *mCtx) translate(fd *ast.FuncDecl, goName, coqName string) (string, erro
 	var ins, outs, tys []string
 	for _, n := range s.params {
 		switch {
-		case s.expPar[n]:
+		case s.expPar[n] || s.u64Par[n]:
 			ins = append(ins, fmt.Sprintf("(%s : N)", coqIdent(n)))
 			sig.ins = append(sig.ins, pos[n])
-		case s.isPtr[n] && s.readIn[n]:
+		case s.isPtr[n] && (s.readIn[n] || !s.written[n]): // never-written pointers are inputs even when unused: stable signatures
 			ins = append(ins, fmt.Sprintf("(%s : F)", coqIdent(n)))
 			sig.ins = append(sig.ins, pos[n])
 		}
@@ -796,6 +987,7 @@ type curveSpec struct {
 	mapperT string // mapper type alias
 	curveP  string
 	hasIso  bool
+	fp2     bool // the base field is the quadratic extension (constants have components U0, U1)
 }
 
 // bigZ renders a non-negative integer as little-endian 64-bit limbs (the extracted OCaml of a plain
@@ -901,6 +1093,7 @@ func genCurveParams(repo string, cs curveSpec, out *strings.Builder, hashes map[
 	// constants set in init(): X.MustSetHex("..") | X[i].MustSetHex("..") | X.SetOne() | X[i].SetOne()
 	scalars := map[string]string{}
 	arrays := map[string]map[int]string{}
+	fp2vals := map[string]map[string]string{} // "name" | "name[i]" -> component -> value
 	for _, f := range files {
 		for _, d := range f.Decls {
 			fd, ok := d.(*ast.FuncDecl)
@@ -944,6 +1137,52 @@ func genCurveParams(repo string, cs curveSpec, out *strings.Builder, hashes map[
 				default:
 					continue
 				}
+				if cs.fp2 {
+					// X.U0.F(..) | X[i].U0.F(..) | X.SetOne() | X[i].SetOne()
+					target, comp := sel.X, ""
+					if cse, ok := target.(*ast.SelectorExpr); ok && (cse.Sel.Name == "U0" || cse.Sel.Name == "U1") {
+						target, comp = cse.X, cse.Sel.Name
+					}
+					key := src(fset, target)
+					if _, isId := target.(*ast.Ident); !isId {
+						ie, ok := target.(*ast.IndexExpr)
+						if !ok {
+							return fmt.Errorf("%s: init: unsupported target `%s`", cs.name, src(fset, st))
+						}
+						if _, ok := ie.Index.(*ast.BasicLit); !ok {
+							return fmt.Errorf("%s: init: unsupported target `%s`", cs.name, src(fset, st))
+						}
+					}
+					set := func(c, v string) error {
+						if fp2vals[key] == nil {
+							fp2vals[key] = map[string]string{}
+						}
+						if old, dup := fp2vals[key][c]; dup && old != v {
+							return fmt.Errorf("%s: init: %s.%s is set twice to different values", cs.name, key, c)
+						}
+						fp2vals[key][c] = v
+						return nil
+					}
+					var err error
+					switch {
+					case comp != "":
+						err = set(comp, val)
+					case sel.Sel.Name == "SetOne":
+						if err = set("U0", "1"); err == nil {
+							err = set("U1", "0")
+						}
+					case sel.Sel.Name == "SetZero":
+						if err = set("U0", "0"); err == nil {
+							err = set("U1", "0")
+						}
+					default:
+						err = fmt.Errorf("%s: init: unsupported `%s`", cs.name, src(fset, st))
+					}
+					if err != nil {
+						return err
+					}
+					continue
+				}
 				switch t := sel.X.(type) {
 				case *ast.Ident:
 					if _, dup := scalars[t.Name]; dup {
@@ -968,7 +1207,50 @@ func genCurveParams(repo string, cs curveSpec, out *strings.Builder, hashes map[
 			}
 		}
 	}
-	ctx := &mCtx{fset: fset, known: map[string]*mSig{}, consts: map[string]string{}, exps: map[string]string{}, limbs: map[string]string{}}
+	ctx := &mCtx{fset: fset, known: map[string]*mSig{}, consts: map[string]string{}, exps: map[string]string{}, u64s: map[string]string{}, limbs: map[string]string{}}
+	elemTy := "Z"
+	if cs.fp2 {
+		elemTy = "(Z * Z)"
+		var keys []string
+		for k := range fp2vals {
+			keys = append(keys, k)
+		}
+		sort.Strings(keys)
+		arrLen := map[string]int{}
+		for _, k := range keys {
+			v := fp2vals[k]
+			if v["U0"] == "" || v["U1"] == "" {
+				return fmt.Errorf("%s: init: %s has a component that is never set", cs.name, k)
+			}
+			name := k
+			if i := strings.Index(k, "["); i >= 0 {
+				idx, _ := strconv.Atoi(k[i+1 : len(k)-1])
+				name = fmt.Sprintf("%s_%d", k[:i], idx)
+				if idx+1 > arrLen[k[:i]] {
+					arrLen[k[:i]] = idx + 1
+				}
+			} else {
+				ctx.consts[k] = "(" + P + k + ")"
+			}
+			fmt.Fprintf(out, "Definition %s%s : Z * Z := (%s, %s)%%Z.\n", P, name, v["U0"], v["U1"])
+		}
+		var an []string
+		for n := range arrLen {
+			an = append(an, n)
+		}
+		sort.Strings(an)
+		for _, n := range an {
+			var elts []string
+			for i := 0; i < arrLen[n]; i++ {
+				if fp2vals[fmt.Sprintf("%s[%d]", n, i)] == nil {
+					return fmt.Errorf("%s: init: %s[%d] is never set", cs.name, n, i)
+				}
+				elts = append(elts, fmt.Sprintf("%s%s_%d", P, n, i))
+			}
+			fmt.Fprintf(out, "Definition %s%s : list (Z * Z) := [%s].\n", P, n, strings.Join(elts, "; "))
+			arrays[n] = map[int]string{} // known coefficient array (for XNum ..)
+		}
+	}
 	var names []string
 	for n := range scalars {
 		names = append(names, n)
@@ -984,6 +1266,9 @@ func genCurveParams(repo string, cs curveSpec, out *strings.Builder, hashes map[
 	}
 	sort.Strings(names)
 	for _, n := range names {
+		if cs.fp2 {
+			continue
+		}
 		var elts []string
 		for i := 0; i < len(arrays[n]); i++ {
 			v, ok := arrays[n][i]
@@ -1009,6 +1294,82 @@ func genCurveParams(repo string, cs curveSpec, out *strings.Builder, hashes map[
 		fmt.Fprintf(out, "Definition %s%s : N := %s.  (* little-endian exponent bytes *)\n", P, n, v)
 		ctx.exps[n] = "(" + P + n + ")"
 	}
+	// package-level uint64 variables with constant initialisers (sqrt_ratio c1, c4, c5)
+	u64init := map[string]ast.Expr{}
+	for _, f := range files {
+		for _, d := range f.Decls {
+			gd, ok := d.(*ast.GenDecl)
+			if !ok || gd.Tok != token.VAR {
+				continue
+			}
+			for _, sp := range gd.Specs {
+				vs := sp.(*ast.ValueSpec)
+				for i, n := range vs.Names {
+					if i < len(vs.Values) {
+						if c, ok := vs.Values[i].(*ast.CallExpr); ok && len(c.Args) == 1 {
+							if id, ok := c.Fun.(*ast.Ident); ok && id.Name == "uint64" {
+								u64init[n.Name] = c.Args[0]
+							}
+						}
+					}
+				}
+			}
+		}
+	}
+	var evalU64 func(e ast.Expr, depth int) (*big.Int, error)
+	evalU64 = func(e ast.Expr, depth int) (*big.Int, error) {
+		if depth > 20 {
+			return nil, fmt.Errorf("cyclic uint64 initialiser")
+		}
+		switch x := e.(type) {
+		case *ast.ParenExpr:
+			return evalU64(x.X, depth+1)
+		case *ast.BasicLit:
+			v, ok := new(big.Int).SetString(x.Value, 0)
+			if !ok {
+				return nil, fmt.Errorf("bad literal %s", x.Value)
+			}
+			return v, nil
+		case *ast.Ident:
+			if in, ok := u64init[x.Name]; ok {
+				return evalU64(in, depth+1)
+			}
+		case *ast.BinaryExpr:
+			l, err := evalU64(x.X, depth+1)
+			if err != nil {
+				return nil, err
+			}
+			r, err := evalU64(x.Y, depth+1)
+			if err != nil {
+				return nil, err
+			}
+			switch x.Op {
+			case token.SHL:
+				return new(big.Int).Lsh(l, uint(r.Uint64())), nil
+			case token.SUB:
+				return new(big.Int).Sub(l, r), nil
+			case token.ADD:
+				return new(big.Int).Add(l, r), nil
+			}
+		}
+		return nil, fmt.Errorf("unsupported uint64 initialiser `%s`", src(fset, e))
+	}
+	names = nil
+	for n := range u64init {
+		names = append(names, n)
+	}
+	sort.Strings(names)
+	for _, n := range names {
+		v, err := evalU64(u64init[n], 0)
+		if err != nil {
+			return fmt.Errorf("%s: %s: %v", cs.name, n, err)
+		}
+		if v.Sign() < 0 || v.BitLen() > 64 {
+			return fmt.Errorf("%s: %s: value out of uint64 range", cs.name, n)
+		}
+		fmt.Fprintf(out, "Definition %s%s : N := Z.to_N (%s).  (* uint64(%s) *)\n", P, n, bigZ(v), src(fset, u64init[n]))
+		ctx.u64s[n] = "(" + P + n + ")"
+	}
 	// methods of the mapper parameter object
 	find := func(recv, name string) *ast.FuncDecl {
 		for _, f := range files {
@@ -1019,7 +1380,7 @@ func genCurveParams(repo string, cs curveSpec, out *strings.Builder, hashes map[
 		return nil
 	}
 	if cs.mapperP != "" {
-		fmt.Fprintf(out, "Section %sMapperParams.\n  Variable K : fops Z.\n  Local Notation F := Z.\n", P)
+		fmt.Fprintf(out, "Section %sMapperParams.\n  Variable K : fops %s.\n  Local Notation F := %s%%type.\n", P, elemTy, elemTy)
 		out.WriteString("  Local Notation \"x + y\" := (fadd K x y).\n  Local Notation \"x * y\" := (fmul K x y).\n  Local Notation \"x - y\" := (fsub K x y).\n  Local Notation \"- x\" := (fopp K x).\n")
 		for _, m := range []string{"MulByA", "MulByB", "SetZ"} {
 			fd := find(cs.mapperP, m)
@@ -1039,6 +1400,7 @@ func genCurveParams(repo string, cs curveSpec, out *strings.Builder, hashes map[
 			return fmt.Errorf("%s: SqrtRatio not found", cs.name)
 		}
 		ctx.known["sswu.SqrtRatio3Mod4"] = &mSig{coq: "SqrtRatio3Mod4 K", ins: []int{1, 2, 3, 4}, outs: []int{0}, retBool: true}
+		ctx.known["sswu.SqrtRatio"] = &mSig{coq: "SqrtRatio K", ins: []int{1, 2, 3, 4, 5, 6, 7, 8}, outs: []int{0}, retBool: true}
 		def, err := ctx.translate(fd, cs.mapperP+".SqrtRatio", P+"SqrtRatio")
 		if err != nil {
 			return err
@@ -1048,10 +1410,24 @@ func genCurveParams(repo string, cs curveSpec, out *strings.Builder, hashes map[
 		fmt.Fprintf(out, "End %sMapperParams.\n", P)
 		// Sgn0: fixed shape
 		fd = find(cs.mapperP, "Sgn0")
-		if fd == nil || len(fd.Body.List) != 1 || src(fset, fd.Body.List[0]) != "return ct.Bool(uint64(v.Bytes()[0] & 0b1))" {
-			return fmt.Errorf("%s: Sgn0: unrecognised body (expected the parity of the first little-endian byte)", cs.name)
+		if fd == nil {
+			return fmt.Errorf("%s: Sgn0 not found", cs.name)
 		}
-		fmt.Fprintf(out, "Definition %sSgn0 (v : Z) : bool := Z.odd v.  (* v.Bytes()[0] & 1, Bytes = canonical little-endian *)\n", P)
+		if cs.fp2 {
+			var body []string
+			for _, st := range fd.Body.List {
+				body = append(body, src(fset, st))
+			}
+			if strings.Join(body, "; ") != "sign0 := ct.Bool(v.U0.Bytes()[0] & 0b1); zero0 := v.U0.IsZero(); sign1 := ct.Bool(v.U1.Bytes()[0] & 0b1); s := sign0 | (zero0 & sign1); return s" {
+				return fmt.Errorf("%s: Sgn0: unrecognised body (expected RFC 9380 sgn0 for m = 2)", cs.name)
+			}
+			fmt.Fprintf(out, "Definition %sSgn0 (v : Z * Z) : bool := Z.odd (fst v) || ((fst v =? 0)%%Z && Z.odd (snd v)).  (* sign_0 OR (zero_0 AND sign_1) *)\n", P)
+		} else {
+			if len(fd.Body.List) != 1 || src(fset, fd.Body.List[0]) != "return ct.Bool(uint64(v.Bytes()[0] & 0b1))" {
+				return fmt.Errorf("%s: Sgn0: unrecognised body (expected the parity of the first little-endian byte)", cs.name)
+			}
+			fmt.Fprintf(out, "Definition %sSgn0 (v : Z) : bool := Z.odd v.  (* v.Bytes()[0] & 1, Bytes = canonical little-endian *)\n", P)
+		}
 		hashes[cs.name+"."+cs.mapperP+".Sgn0"] = hashText(src(fset, fd))
 		if cs.hasIso {
 			for _, m := range []string{"XNum", "XDen", "YNum", "YDen"} {
@@ -1071,7 +1447,7 @@ func genCurveParams(repo string, cs curveSpec, out *strings.Builder, hashes map[
 				if !ok || arrays[id.Name] == nil {
 					return fmt.Errorf("%s: %s: unknown coefficient array", cs.name, m)
 				}
-				fmt.Fprintf(out, "Definition %s%s : list Z := %s%s.\n", P, m, P, id.Name)
+				fmt.Fprintf(out, "Definition %s%s : list %s := %s%s.\n", P, m, elemTy, P, id.Name)
 			}
 		}
 	}
@@ -1144,6 +1520,8 @@ func genCurveParams(repo string, cs curveSpec, out *strings.Builder, hashes map[
 			hk = "XMD_SHA256"
 		case "h2c.NewXMDMessageExpander(sha512.New)":
 			hk = "XMD_SHA512"
+		case "h2c.NewXMDMessageExpander(func() hash.Hash { h, _ := blake2b.New512(nil); return h })":
+			hk = "XMD_BLAKE2B512"
 		default:
 			return fmt.Errorf("%s: unrecognised message expander `%s`", cs.name, found)
 		}
@@ -1216,6 +1594,9 @@ func genCurveParams(repo string, cs curveSpec, out *strings.Builder, hashes map[
 			}
 			fmt.Fprintf(out, "Definition %sclear_cofactor : cofactor_kind := Cofactor_scalar.\n", P)
 			fmt.Fprintf(out, "Definition %scofactor_scalar : Z := %s.  (* %s *)\n", P, bigZ(v), src(fset, call.Args[1]))
+		case joined == "var out, in G2Point; in.X.Set(xIn); in.Y.Set(yIn); in.Z.Set(zIn); clearCofactorBls12381G2(&out, &in); xOut.Set(&out.X); yOut.Set(&out.Y); zOut.Set(&out.Z)":
+			// RFC 9380 G.4 clear_cofactor_bls12381_g2 (psi-based), equal to multiplication by h_eff of 8.8.2
+			fmt.Fprintf(out, "Definition %sclear_cofactor : cofactor_kind := Cofactor_bls12381g2_psi.\n", P)
 		default:
 			fmt.Fprintf(out, "Definition %sclear_cofactor : cofactor_kind := Cofactor_other.  (* unrecognised: %d statements *)\n", P, len(body))
 		}
@@ -1309,10 +1690,11 @@ func genMappers(repo string) (string, map[string]string, error) {
 		"Definition poly_eval {F : Type} (K : fops F) (coefficients : list F) (at_ : F) : F :=\n" +
 		"  match rev coefficients with\n  | [] => f0 K   (* the code indexes coefficients[-1]: panic; no caller passes an empty list *)\n" +
 		"  | top :: rest => fold_left (fun acc c => fadd K (fmul K acc at_) c) rest top\n  end.\n\n")
+	out.WriteString("(* for i := hi; i >= lo; i-- { st = body i st } *)\nDefinition for_down {S : Type} (hi lo : N) (body : N -> S -> S) (s : S) : S :=\n  snd (N.iter (hi + 1 - lo) (fun ist => (N.pred (fst ist), body (fst ist) (snd ist))) (hi, s)).\n\n")
 	out.WriteString("Inductive mapper_kind := sswu_ZeroPointMapper | sswu_NonZeroPointMapper | elligator2_Edwards25519PointMapper.\n")
-	out.WriteString("Inductive expander_kind := XMD_SHA256 | XMD_SHA512.\n")
+	out.WriteString("Inductive expander_kind := XMD_SHA256 | XMD_SHA512 | XMD_BLAKE2B512.\n")
 	out.WriteString("(* ClearCofactor: the identity | three doublings | multiplication by the scalar <curve>_cofactor_scalar | unrecognised *)\n")
-	out.WriteString("Inductive cofactor_kind := Cofactor_identity | Cofactor_double3 | Cofactor_scalar | Cofactor_other.\n\n")
+	out.WriteString("Inductive cofactor_kind := Cofactor_identity | Cofactor_double3 | Cofactor_scalar | Cofactor_bls12381g2_psi | Cofactor_other.\n\n")
 
 	sdir := filepath.Join(repo, "pkg/base/curves/impl/rfc9380/mappers/sswu")
 	fset := token.NewFileSet()
@@ -1328,7 +1710,7 @@ func genMappers(repo string) (string, map[string]string, error) {
 		return "", nil, err
 	}
 	out.WriteString("Section SqrtRatio.\n  Context {F : Type} (K : fops F).\n" + notations + "\n")
-	ctx := &mCtx{fset: fset, known: map[string]*mSig{}, consts: map[string]string{}, exps: map[string]string{}, limbs: map[string]string{}}
+	ctx := &mCtx{fset: fset, known: map[string]*mSig{}, consts: map[string]string{}, exps: map[string]string{}, u64s: map[string]string{}, limbs: map[string]string{}}
 	fd := findMethod(fsq, "", "SqrtRatio3Mod4")
 	if fd == nil {
 		return "", nil, fmt.Errorf("SqrtRatio3Mod4 not found")
@@ -1339,13 +1721,23 @@ func genMappers(repo string) (string, map[string]string, error) {
 	}
 	out.WriteString(def)
 	hashes["sswu.SqrtRatio3Mod4"] = hashText(src(fset, fd))
+	fd = findMethod(fsq, "", "SqrtRatio")
+	if fd == nil {
+		return "", nil, fmt.Errorf("SqrtRatio not found")
+	}
+	def, err = ctx.translate(fd, "SqrtRatio", "SqrtRatio")
+	if err != nil {
+		return "", nil, err
+	}
+	out.WriteString(def)
+	hashes["sswu.SqrtRatio"] = hashText(src(fset, fd))
 	out.WriteString("End SqrtRatio.\n\n")
 
 	// sswu, mapIso, Map
 	out.WriteString("Section SSWU.\n  Context {F : Type} (K : fops F).\n" + notations)
 	out.WriteString("  Variables (mulByA mulByB : F -> F) (sswuZ : F) (sqrt_ratio : F -> F -> bool * F) (sgn0 : F -> bool).\n")
 	out.WriteString("  Variables (isoXNum isoXDen isoYNum isoYDen : list F).\n  Local Notation poly_eval := (poly_eval K).\n\n")
-	ctx = &mCtx{fset: fset, known: map[string]*mSig{}, consts: map[string]string{}, exps: map[string]string{}, limbs: map[string]string{}, paramOps: true}
+	ctx = &mCtx{fset: fset, known: map[string]*mSig{}, consts: map[string]string{}, exps: map[string]string{}, u64s: map[string]string{}, limbs: map[string]string{}, paramOps: true}
 	fsw, err := parse(sdir, "sswu.go")
 	if err != nil {
 		return "", nil, err
@@ -1408,7 +1800,7 @@ func genMappers(repo string) (string, map[string]string, error) {
 	if err != nil {
 		return "", nil, err
 	}
-	ctx = &mCtx{fset: fset, known: map[string]*mSig{}, consts: map[string]string{}, exps: map[string]string{}, limbs: map[string]string{}}
+	ctx = &mCtx{fset: fset, known: map[string]*mSig{}, consts: map[string]string{}, exps: map[string]string{}, u64s: map[string]string{}, limbs: map[string]string{}}
 	var limbNames []string
 	for _, f := range []*ast.File{fc, fe} {
 		arr := pkgArrays([]*ast.File{f}, "uint64")
@@ -1483,6 +1875,9 @@ func genMappers(repo string) (string, map[string]string, error) {
 		{name: "k256", dir: "pkg/base/curves/k256/impl", files: []string{"params.go"}, mapperP: "curveMapperParams", hasherP: "CurveHasherParams", mapperT: "curveMapper", curveP: "curveParams", hasIso: true},
 		{name: "p256", dir: "pkg/base/curves/p256/impl", files: []string{"params.go"}, mapperP: "curveMapperParams", hasherP: "CurveHasherParams", mapperT: "curveMapper", curveP: "curveParams"},
 		{name: "bls12381g1", dir: "pkg/base/curves/pairable/bls12381/impl", files: []string{"g1_params.go"}, mapperP: "g1CurveMapperParams", hasherP: "G1CurveHasherParams", mapperT: "g1CurveMapper", curveP: "g1CurveParams", hasIso: true},
+		{name: "bls12381g2", dir: "pkg/base/curves/pairable/bls12381/impl", files: []string{"g2_params.go"}, mapperP: "g2CurveMapperParams", hasherP: "G2CurveHasherParams", mapperT: "g2CurveMapper", curveP: "g2CurveParams", hasIso: true, fp2: true},
+		{name: "pallas", dir: "pkg/base/curves/pasta/impl", files: []string{"ep_params.go"}, mapperP: "pallasCurveMapperParams", hasherP: "PallasCurveHasherParams", mapperT: "pallasCurveMapper", curveP: "pallasCurveParams", hasIso: true},
+		{name: "vesta", dir: "pkg/base/curves/pasta/impl", files: []string{"eq_params.go"}, mapperP: "vestaCurveMapperParams", hasherP: "VestaCurveHasherParams", mapperT: "vestaCurveMapper", curveP: "vestaCurveParams", hasIso: true},
 		{name: "edwards25519", dir: "pkg/base/curves/edwards25519/impl", files: []string{"params.go"}, hasherP: "CurveHasherParams", mapperT: "curveMapper", curveP: "curveParams"},
 	} {
 		if _, err := os.Stat(filepath.Join(repo, cs.dir)); err != nil {
